@@ -30,7 +30,8 @@ type Term struct {
 	Obj  types.Object // var / field / func
 	Name string       // const value, operator, result id, type name
 	Args []*Term
-	Pos  token.Pos // result site
+	Pos  token.Pos  // result site
+	Typ  types.Type // static type of the expression the term came from (may be nil)
 	str  string
 }
 
@@ -437,6 +438,7 @@ type FuncFacts struct {
 	// blockIn is the state at block entry
 	blockIn  map[*cfg.Block]*State
 	escaping map[types.Object]bool
+	nonNegF  func(string, *Term) bool
 }
 
 type FactEngine struct {
@@ -448,6 +450,8 @@ type FactEngine struct {
 	objIDs  map[types.Object]int
 	getters map[*types.Func]*types.Var
 	events  map[*types.Func]bool
+	// Semantic enables the semantic meet of numeric facts (bounds prover).
+	Semantic bool
 	// Accept, when set, lets a rule discharge a requirement from other
 	// facts of the state than the required one (e.g. an identity guard).
 	Accept func(st *State, f *Fact) bool
@@ -604,7 +608,7 @@ func (ff *FuncFacts) run(entry *State) {
 				if first {
 					m, first = edgeOut[pe], false
 				} else {
-					m = meet(m, edgeOut[pe])
+					m = ff.meetStates(m, edgeOut[pe])
 				}
 			}
 			if succ.Index == 0 {
@@ -628,6 +632,193 @@ func (ff *FuncFacts) run(entry *State) {
 			ff.transfer(b, in[i], true)
 		}
 	}
+}
+
+// meetStates is the join of the analysis: set intersection, plus - when the
+// function is analysed with Semantic set - the numeric facts of one side
+// that the other side implies by linear reasoning (x < n and n >= x+4 both
+// keep x < n).
+func (ff *FuncFacts) meetStates(a, b *State) *State {
+	m := meet(a, b)
+	if !ff.eng.Semantic || a == nil || b == nil {
+		return m
+	}
+	nn := ff.nonNeg()
+	ia, ib := stateIneqs(a), stateIneqs(b)
+	var extra []*Fact
+	for k, f := range a.m {
+		if f.Op == "lt" {
+			if _, ok := m.m[k]; !ok && impliesFact(ib, f, nn) {
+				extra = append(extra, f)
+			}
+		}
+	}
+	for k, f := range b.m {
+		if f.Op == "lt" {
+			if _, ok := m.m[k]; !ok && impliesFact(ia, f, nn) {
+				extra = append(extra, f)
+			}
+		}
+	}
+	return m.with(extra...)
+}
+
+// nonNeg returns the non-negativity oracle for atoms of this function.
+func (ff *FuncFacts) nonNeg() func(string, *Term) bool {
+	if ff.nonNegF != nil {
+		return ff.nonNegF
+	}
+	vars := ff.nonNegVars()
+	ff.nonNegF = func(a string, t *Term) bool {
+		if t == nil {
+			return false
+		}
+		if t.K == 'k' && (t.Name == "len" || t.Name == "cap") {
+			return true
+		}
+		if t.K == 'v' && vars[t.Obj] {
+			return true
+		}
+		if t.Typ != nil {
+			if bt, ok := t.Typ.Underlying().(*types.Basic); ok && bt.Info()&types.IsUnsigned != 0 {
+				return true
+			}
+		}
+		return false
+	}
+	return ff.nonNegF
+}
+
+// nonNegVars: integer locals only ever assigned non-negative values
+// (constants >= 0, unsigned-typed expressions, len(), sums and products of
+// such, increments).  Overflow of int arithmetic is assumed away.
+func (ff *FuncFacts) nonNegVars() map[types.Object]bool {
+	info := ff.info()
+	cand := map[types.Object]bool{}
+	type asg struct {
+		obj types.Object
+		rhs ast.Expr // nil for ++ ; for += the added expression
+		add bool
+	}
+	var asgs []asg
+	bad := map[types.Object]bool{}
+	ast.Inspect(ff.fs.Body(), func(n ast.Node) bool {
+		switch x := n.(type) {
+		case *ast.AssignStmt:
+			for i, l := range x.Lhs {
+				id, ok := unparen(l).(*ast.Ident)
+				if !ok {
+					continue
+				}
+				o := info.ObjectOf(id)
+				if o == nil || !isOrdered(o.Type()) {
+					continue
+				}
+				cand[o] = true
+				switch {
+				case len(x.Lhs) != len(x.Rhs):
+					bad[o] = true
+				case x.Tok == token.ASSIGN || x.Tok == token.DEFINE:
+					asgs = append(asgs, asg{o, x.Rhs[i], false})
+				case x.Tok == token.ADD_ASSIGN || x.Tok == token.OR_ASSIGN || x.Tok == token.MUL_ASSIGN || x.Tok == token.SHL_ASSIGN:
+					asgs = append(asgs, asg{o, x.Rhs[i], true})
+				default:
+					bad[o] = true
+				}
+			}
+		case *ast.IncDecStmt:
+			if id, ok := unparen(x.X).(*ast.Ident); ok {
+				if o := info.ObjectOf(id); o != nil {
+					cand[o] = true
+					if x.Tok == token.DEC {
+						bad[o] = true
+					}
+				}
+			}
+		case *ast.ValueSpec:
+			for i, name := range x.Names {
+				o := info.Defs[name]
+				if o == nil || !isOrdered(o.Type()) {
+					continue
+				}
+				cand[o] = true
+				if i < len(x.Values) {
+					asgs = append(asgs, asg{o, x.Values[i], false})
+				}
+			}
+		case *ast.RangeStmt:
+			for _, e := range []ast.Expr{x.Key} {
+				if id, ok := e.(*ast.Ident); ok {
+					if o := info.ObjectOf(id); o != nil {
+						cand[o] = true // range index >= 0
+					}
+				}
+			}
+			if id, ok := x.Value.(*ast.Ident); ok {
+				if o := info.ObjectOf(id); o != nil && isOrdered(o.Type()) {
+					if bt, ok := o.Type().Underlying().(*types.Basic); !ok || bt.Info()&types.IsUnsigned == 0 {
+						bad[o] = true
+					}
+				}
+			}
+		case *ast.UnaryExpr:
+			if x.Op == token.AND {
+				if id, ok := unparen(x.X).(*ast.Ident); ok {
+					if o := info.ObjectOf(id); o != nil {
+						bad[o] = true
+					}
+				}
+			}
+		}
+		return true
+	})
+	good := map[types.Object]bool{}
+	for o := range cand {
+		if !bad[o] {
+			good[o] = true
+		}
+	}
+	var nn func(e ast.Expr) bool
+	nn = func(e ast.Expr) bool {
+		e = unparen(e)
+		if tv, ok := info.Types[e]; ok && tv.Value != nil {
+			s := tv.Value.ExactString()
+			return !strings.HasPrefix(s, "-")
+		}
+		if t := info.TypeOf(e); t != nil {
+			if bt, ok := t.Underlying().(*types.Basic); ok && bt.Info()&types.IsUnsigned != 0 {
+				return true
+			}
+		}
+		switch x := e.(type) {
+		case *ast.Ident:
+			return good[info.ObjectOf(x)]
+		case *ast.BinaryExpr:
+			switch x.Op {
+			case token.ADD, token.MUL, token.OR, token.SHL, token.SHR, token.AND, token.QUO, token.REM:
+				return nn(x.X) && nn(x.Y)
+			}
+		case *ast.CallExpr:
+			if tv, ok := info.Types[x.Fun]; ok && tv.IsType() && len(x.Args) == 1 {
+				return nn(x.Args[0])
+			}
+			if isBuiltin(info, x, "len") || isBuiltin(info, x, "cap") || isBuiltin(info, x, "copy") {
+				return true
+			}
+		}
+		return false
+	}
+	for changed := true; changed; {
+		changed = false
+		for _, a := range asgs {
+			if good[a.obj] && !nn(a.rhs) {
+				delete(good, a.obj)
+				changed = true
+			}
+		}
+	}
+	// parameters are not assigned here: unknown sign unless unsigned
+	return good
 }
 
 // findEscaping marks local variables whose address is taken or that are
@@ -696,6 +887,17 @@ func (ff *FuncFacts) transfer(b *cfg.Block, st *State, record bool) []*State {
 				if e != nil {
 					if t := ff.term(e); t != nil {
 						st = ff.killTerm(st, t)
+					}
+				}
+			}
+			// for i := range X over a slice/array/string: 0 <= i < len(X)
+			if rs.Key != nil && st != nil {
+				switch ff.info().TypeOf(rs.X).Underlying().(type) {
+				case *types.Slice, *types.Array:
+					kt, xt := ff.term(rs.Key), ff.term(rs.X)
+					if kt != nil && xt != nil && kt.K == 'v' {
+						ln := TCall("len", nil, xt)
+						st = st.with(mkFact(true, "lt", kt, ln), mkFact(false, "lt", kt, TConst("0")))
 					}
 				}
 			}
@@ -862,7 +1064,20 @@ func (ff *FuncFacts) node(n ast.Node, st *State, record bool) *State {
 	case *ast.IncDecStmt:
 		st = ff.lhsSubexprs(x.X, st, record)
 		if t := ff.term(x.X); t != nil {
+			// v < T before v++  =>  v <= T after
+			var shifted []*Fact
+			if x.Tok == token.INC && st != nil {
+				ts := t.String()
+				for _, f := range st.m {
+					if f.Op == "lt" && f.Pos && f.A.String() == ts && !f.B.mentions(ts) {
+						shifted = append(shifted, mkFact(false, "lt", f.B, f.A))
+					}
+				}
+			}
 			st = ff.killTerm(st, t)
+			if st != nil {
+				st = st.with(shifted...)
+			}
 		} else {
 			st = ff.killUnknownStore(st, x.X)
 		}
@@ -1069,6 +1284,22 @@ func (ff *FuncFacts) dropAssumed(s, base *State) *State {
 // ---------- terms from expressions ----------
 
 func (ff *FuncFacts) term(e ast.Expr) *Term {
+	t := ff.term0(e)
+	if t != nil && t.Typ == nil && e != nil {
+		if ty := ff.info().TypeOf(e); ty != nil {
+			if t.str != "" || len(t.Args) > 0 || t.K == 'v' || t.K == 'c' {
+				// terms may be shared; annotate a copy only when cheap
+				c := *t
+				c.Typ = ty
+				return &c
+			}
+			t.Typ = ty
+		}
+	}
+	return t
+}
+
+func (ff *FuncFacts) term0(e ast.Expr) *Term {
 	info := ff.info()
 	e = unparen(e)
 	if tv, ok := info.Types[e]; ok && tv.Value != nil {
@@ -1378,6 +1609,9 @@ func (ff *FuncFacts) killTerm(st *State, t *Term) *State {
 			dep := false
 			for _, top := range f.terms() {
 				top.walk(func(x *Term) {
+					if x.K == 'k' && (x.Name == "len" || x.Name == "cap") {
+						return // the length does not depend on the contents
+					}
 					if x.K == 'i' || x.K == 'k' || (x.K == 'o' && x.Name != "fresh") {
 						for _, a := range x.Args {
 							a.walk(func(y *Term) {
